@@ -51,7 +51,7 @@ REGISTRY = {
     "C10": std(scen_state.gen_C10),
     "C16": std(scen_state.gen_C16, ("shipped", "toyint")),
     "C05": std(scen_group.gen_C05),
-    "C12": std(scen_group.gen_C12, ("edgen",)),
+    "C12": std(scen_group.gen_C12, ("edgen", "toyed")),
     "C13": std(scen_group.gen_C13, ("shipped", "toyint", "toyed")),
     "C14": std(scen_group.gen_C14, ("shipped", "toyint", "toyed")),
     "C15": std(scen_group.gen_C15, ("shipped", "toyint", "toyed")),
